@@ -192,6 +192,28 @@ fn length_sweeps(c: &Corpus, chk: &mut Check, tier: Tier) {
                             if body != len || bytes.len() != hl + len {
                                 chk.fail(&format!("c02:{}:direct-write-length", e.label()), &format!("value with {} body bytes written as {} bytes", len, bytes.len()), j("length"));
                             }
+                            // the encrypted writer's header and the decrypting reader: this message and a second one behind it
+                            // on the same stream must come back whole (only where the plain reader accepts the frame)
+                            if len <= 0x1_0000 && matches!(ep.read_only(&bytes), Outcome::Ok { .. }) {
+                                let key = [0x77u8; 40];
+                                let seq = vec![bytes.clone(), bytes[..].to_vec()];
+                                if let Some(cyc) = ep.encrypted_cycle(&key, &seq, crate::endpoints::Flavor::Sync, crate::endpoints::Flavor::Sync, None) {
+                                    chk.eval();
+                                    chk.count("encrypted_write_read");
+                                    match &cyc.cipher {
+                                        Err(m) => {
+                                            chk.fail(&format!("c02:{}:encrypted-write-failed", e.label()), &format!("body {}: {}", len, m), j("encrypted write"));
+                                        }
+                                        Ok(cipher) => {
+                                            let ok = cipher.len() == 2 * bytes.len() && cyc.read_back.len() == 2 && cyc.read_back.iter().all(|o| matches!(o, Outcome::Ok { consumed, .. } if *consumed == bytes.len()));
+                                            if !ok {
+                                                let what = cyc.read_back.iter().map(|o| o.short()).collect::<Vec<_>>().join(" ; ");
+                                                chk.fail(&format!("c02:{}:encrypted-header-or-consumption", e.label()), &format!("body {}: two encrypted messages of {} bytes each give a stream of {} bytes, read back as: {}", len, bytes.len(), cipher.len(), what.chars().take(300).collect::<String>()), j("encrypted stream"));
+                                            }
+                                        }
+                                    }
+                                }
+                            }
                         }
                         Err(m) => {
                             chk.fail(&format!("c02:{}:direct-write-header", e.label()), &format!("body {}: {}", len, m), j(&m));
